@@ -2,6 +2,12 @@ import AcraModel.KeystoreSec.ExportLemmas
 import AcraModel.Crypto.Box
 import AcraModel.KeystoreSec.Der
 import AcraModel.Generated.KeystoreSec
+import AcraModel.KeystoreSec.ExportV1Lemmas
+import AcraModel.KeystoreSec.MigrateV1Lemmas
+import AcraModel.KeystoreSec.V1NamesLemmas
+import AcraModel.KeystoreSec.V1WriteLog
+import AcraModel.Generated.V1Export
+import AcraModel.KeystoreSec.ExportV1Codec
 /-!
 # C18 — exported keys import to an identical keystore and stay confidential in transit
 
@@ -170,7 +176,349 @@ theorem import_destroyed_pinned_counterexample (c : CryptoOps) (ν : Nonces) (T 
 /-- after the repair a destroyed key is importable -/
 example : ImportableKey ⟨2, stDestroyed, 0, 10, []⟩ := ⟨by decide, Or.inr rfl, by simp, by simp⟩
 
+
+/-! # The v1 key store: `KeyBackuper.Export` / `Import` and the migration to v2
+
+Models: `KeystoreSec/{V1Names, ExportV1, MigrateV1}.lean`, tied by the ops `C18.v1.*`. -/
+section V1
+open AcraModel.KeystoreSec.V1 AcraModel.KeystoreSec.ExportV1 AcraModel.KeystoreSec.MigrateV1
+open AcraModel.CrossClient (KeyContext keyContextBytes keyEncrypt keyDecrypt Files)
+
+
+/-! ## facts about the v1 sources (regenerated on every run) -/
+open Generated.V1Export in
+/-- The name classification of `KeyBackuper` is, statement by statement, what `V1Names.lean` models:
+`isHistoricalFilename` = `time.Parse` of the base name, `isPrivate` looks at the history directory's
+base name, `isPublic` at the two suffixes, `getContextFromFilename` strips `.old` from the history
+directory (repair 45), compares with the two poison names, then cuts the key-kind suffix off the END
+of the base name in the order `_hmac, _server, _translator, _storage, _storage_sym`. -/
+theorem fact_v1_name_classification :
+    isHistoricalFilenameBody = ["_, err := time.Parse(HistoricalFileNameTimeFormat, filepath.Base(name))", "return err == nil"] ∧
+    isPrivateBody = ["if isHistoricalFilename(fname) { fname = filepath.Base(filepath.Dir(fname)) }", "if fname == PoisonKeyFilename { return true }", "if isPublic(fname) { return false }", "return true"] ∧
+    isPublicBody = ["if strings.HasSuffix(fname, \".pub\") { return true }", "if strings.HasSuffix(fname, \".pub.old\") { return true }", "return false"] ∧
+    getContextFromFilenameBody = ["if isHistoricalFilename(fname) { fname = strings.TrimSuffix(filepath.Dir(fname), historyDirSuffix) }", "if fname == PoisonKeyFilename { return keystore.NewKeyContext(keystore.PurposePoisonRecordKeyPair, []byte(fname)) }", "if fname == getSymmetricKeyName(PoisonKeyFilename) { return keystore.NewKeyContext(keystore.PurposePoisonRecordSymmetricKey, []byte(fname)) }", "fname = filepath.Base(fname)", "if strings.HasSuffix(fname, \".old\") { fname = fname[:len(fname)-len(\".old\")] }", "if strings.HasSuffix(fname, \"_hmac\") { return keystore.NewClientIDKeyContext(keystore.PurposeSearchHMAC, []byte(fname[:len(fname)-len(\"_hmac\")])) }", "if strings.HasSuffix(fname, \"_server\") { return keystore.NewClientIDKeyContext(keystore.PurposeLegacy, []byte(fname[:len(fname)-len(\"_server\")])) }", "if strings.HasSuffix(fname, \"_translator\") { return keystore.NewClientIDKeyContext(keystore.PurposeLegacy, []byte(fname[:len(fname)-len(\"_translator\")])) }", "if strings.HasSuffix(fname, \"_storage\") { return keystore.NewClientIDKeyContext(keystore.PurposeStorageClientPrivateKey, []byte(fname[:len(fname)-len(\"_storage\")])) }", "if strings.HasSuffix(fname, \"_storage_sym\") { return keystore.NewClientIDKeyContext(keystore.PurposeStorageClientSymmetricKey, []byte(fname[:len(fname)-len(\"_storage_sym\")])) }", "return keystore.NewKeyContext(keystore.PurposeUndefined, []byte(fname))"] := by
+  refine ⟨by rfl, by rfl, by rfl, by rfl⟩
+
+open Generated.V1Export in
+/-- `Export` serves each key kind through the getter and the name function the model uses, reads the
+whole folder for the modes "private"/"all", names each file relative to the *cleaned* folder path,
+decrypts private files under the context from the name and verifies public ones, then gob-encodes and
+seals under a fresh key with the empty context; `Import` unseals, decodes, and per record encrypts
+(private) and writes `content`, then describes the base name. -/
+theorem fact_v1_export_pipeline :
+    readFilesAsKeysRelativeName = ["relativeName := strings.Replace(f, filepath.Clean(basePath)+\"/\", \"\", -1)"] ∧
+    readFilesAsKeysCalls = ["storage.ReadFile", "isPrivate", "getContextFromFilename", "encryptor.Decrypt", "isPublic", "verifyPublicKey"] ∧
+    exportKindCases = ["keystore.KeyPoisonPublic: store.keyStore.GetPoisonKeyPair verifyPublicKey", "keystore.KeyPoisonPrivate: store.keyStore.GetPoisonKeyPair", "keystore.KeyStoragePublic: store.keyStore.GetClientIDEncryptionPublicKey verifyPublicKey getPublicKeyFilename GetServerDecryptionKeyFilename", "keystore.KeyStoragePrivate: store.keyStore.GetServerDecryptionPrivateKey GetServerDecryptionKeyFilename", "keystore.KeySymmetric: store.keyStore.GetClientIDSymmetricKey getClientIDSymmetricKeyName", "keystore.KeySearch: store.keyStore.GetHMACSecretKey getHmacKeyFilename", "default: "] ∧
+    exportPipeline = ["gob.NewEncoder", "encoder.Encode", "keystore.GenerateSymmetricKey", "keystore.NewSCellKeyEncryptor", "encryptor.Encrypt", "keystore.NewEmptyKeyContext"] ∧
+    exportModeConditions = ["(mode == keystore.ExportAllKeys || mode == keystore.ExportPublicOnly) && store.publicFolder != store.privateFolder", "mode == keystore.ExportPrivateKeys || mode == keystore.ExportAllKeys"] ∧
+    importCalls = ["keystore.NewSCellKeyEncryptor", "decryptor.Decrypt", "decoder.Decode", "isPrivate", "filepath.Join", "getContextFromFilename", "store.currentDecryptor.Encrypt", "filepath.Join", "store.storage.MkdirAll", "store.storage.WriteFile", "DescribeKeyFile"] ∧
+    importWriteArgs = ["content"] := by
+  refine ⟨by rfl, by rfl, by rfl, by rfl, by rfl, by rfl, by rfl⟩
+
+open Generated.V1Export in
+/-- The migration classifier, the fused map key (with its separator, repair 49), the path merge, the
+purpose → (export, import) table of `ImportKeyFileV1`, `describeNewKeyPair` taking the halves that
+exist (repair 48) and `AddKey` + `SetCurrent` are what `MigrateV1.lean` models. -/
+theorem fact_v1_migration :
+    classifyExportedKeyBody = ["filename := filepath.Base(path)", "if filename == SecureLogKeyFilename { keyContext := keystore.NewKeyContext(keystore.PurposeAuditLog, []byte(SecureLogKeyFilename)) return NewExportedSymmetricKey(path, keyContext) }", "if strings.HasSuffix(path, \"/\"+getSymmetricKeyName(PoisonKeyFilename)) { keyContext := keystore.NewKeyContext(keystore.PurposePoisonRecordSymmetricKey, []byte(getSymmetricKeyName(PoisonKeyFilename))) return NewExportedSymmetricKey(path, keyContext) }", "if strings.HasSuffix(filename, \"_hmac\") { keyContext := keystore.NewClientIDKeyContext(keystore.PurposeSearchHMAC, []byte(strings.TrimSuffix(filename, \"_hmac\"))) return NewExportedSymmetricKey(path, keyContext) }", "if strings.HasSuffix(filename, \"_storage_sym\") { keyContext := keystore.NewClientIDKeyContext(keystore.PurposeStorageClientSymmetricKey, []byte(strings.TrimSuffix(filename, \"_storage_sym\"))) return NewExportedSymmetricKey(path, keyContext) }", "if strings.HasSuffix(path, poisonKeyFilenamePublic) { keyContext := keystore.NewKeyContext(keystore.PurposePoisonRecordKeyPair, []byte(PoisonKeyFilename)) return NewExportedPublicKey(path, keyContext) }", "if strings.HasSuffix(path, PoisonKeyFilename) { keyContext := keystore.NewKeyContext(keystore.PurposePoisonRecordKeyPair, []byte(PoisonKeyFilename)) return NewExportedPrivateKey(path, keyContext) }", "if strings.HasSuffix(filename, \"_storage.pub\") { keyContext := keystore.NewClientIDKeyContext(keystore.PurposeStorageClientKeyPair, []byte(strings.TrimSuffix(filename, \"_storage.pub\"))) return NewExportedPublicKey(path, keyContext) }", "keyContext := keystore.NewClientIDKeyContext(keystore.PurposeStorageClientKeyPair, []byte(strings.TrimSuffix(filename, \"_storage\")))", "return NewExportedPrivateKey(path, keyContext)"] ∧
+    fusedIDBody = ["return key.KeyContext.Purpose.String() + \"\\x00\" + string(keystore.GetKeyContextFromContext(key.KeyContext))"] ∧
+    addPathFromBody = ["if other.PublicPath != \"\" { key.PublicPath = other.PublicPath }", "if other.PrivatePath != \"\" { key.PrivatePath = other.PrivatePath }", "if other.SymmetricPath != \"\" { key.SymmetricPath = other.SymmetricPath }"] ∧
+    importV1Cases = ["keystore.PurposePoisonRecordKeyPair: oldKeyStore.ExportKeyPair s.savePoisonKeyPair", "keystore.PurposeStorageClientKeyPair: oldKeyStore.ExportKeyPair s.SaveDataEncryptionKeys", "keystore.PurposeAuditLog: oldKeyStore.ExportSymmetricKey s.importLogKey", "keystore.PurposeSearchHMAC: oldKeyStore.ExportSymmetricKey s.importHmacKey", "keystore.PurposePoisonRecordSymmetricKey: oldKeyStore.ExportSymmetricKey s.importPoisonRecordSymmetricKey", "keystore.PurposeStorageClientSymmetricKey: oldKeyStore.ExportSymmetricKey s.importClientIDSymmetricKey", "default: "] ∧
+    describeNewKeyPairBody = ["data := api.KeyData{Format: api.ThemisKeyPairFormat}", "if keypair.Public != nil { data.PublicKey = keypair.Public.Value }", "if keypair.Private != nil { data.PrivateKey = keypair.Private.Value }", "return api.KeyDescription{ ValidSince: time.Now(), ValidUntil: time.Now().Add(defaultKeyCryptoperiod), Data: []api.KeyData{data}, }"] ∧
+    addCurrentKeyPairCalls = ["ring.AddKey", "ring.SetCurrent"] ∧
+    addCurrentSymmetricKeyCalls = ["ring.AddKey", "ring.SetCurrent"] := by
+  refine ⟨by rfl, by rfl, by rfl, by rfl, by rfl, by rfl, by rfl⟩
+
+open Generated.V1Export in
+/-- the purposes and key kinds of the models are the constants of `keystore/keystore.go` -/
+theorem fact_v1_constants :
+    pSearchHMAC = cPurposeSearchHMAC ∧ pAuditLog = cPurposeAuditLog ∧ pPoisonSym = cPurposePoisonRecordSymmetricKey ∧
+    pStorageSym = cPurposeStorageClientSymmetricKey ∧ pPoisonPair = cPurposePoisonRecordKeyPair ∧
+    pStoragePair = cPurposeStorageClientKeyPair ∧ pStoragePrivate = cPurposeStorageClientPrivateKey ∧
+    pLegacy = cPurposeLegacy ∧ pUndefined = cPurposeUndefined ∧
+    [cKeyPoisonPublic, cKeyPoisonPrivate, cKeyStoragePublic, cKeyStoragePrivate, cKeySymmetric, cKeySearch] =
+      ["poison-public", "poison-private", "storage-public", "storage-private", "symmetric-key", "hmac-key"] := by
+  refine ⟨by rfl, by rfl, by rfl, by rfl, by rfl, by rfl, by rfl, by rfl, by rfl, by rfl⟩
+
+/-- **The v1 bundle is sealed.** Whatever is exported (by ids or everything, history included), the
+bundle is `KeysBackup{Data: enc accessKey ⟨no context⟩ (serialised records) nonce, Keys: accessKey}`:
+the serialised key list – the only place where exported secrets are in plaintext – never appears
+outside the AEAD (structural "never in clear", DESIGN §4.3; with the length law `Data` is not the
+serialisation itself). -/
+theorem v1_bundle_sealed (e : Env) (cd : ExportV1.Codec) (S : ExportV1.Store) (ids : List ExportID) (mode : Mode)
+    (accessKey nonce : Bytes) (b : Bundle) (hb : ExportV1.exportBundle e cd S ids mode accessKey nonce = some b) :
+    ∃ recs, exportRecords e S ids mode = some recs ∧
+      e.c.enc accessKey [] (cd.ser recs) nonce = some b.data ∧ b.keys = accessKey ∧
+      (SealLen e.c → b.data ≠ cd.ser recs) := by
+  unfold ExportV1.exportBundle at hb
+  cases hr : exportRecords e S ids mode with
+  | none => simp [hr] at hb
+  | some recs =>
+    simp only [hr, Option.bind_some, sealRecords] at hb
+    cases he : keyEncrypt e.c accessKey emptyCtx (cd.ser recs) nonce with
+    | none => simp [he] at hb
+    | some d =>
+      simp only [he, Option.map_some, Option.some.injEq] at hb
+      subst hb
+      have he' : e.c.enc accessKey [] (cd.ser recs) nonce = some d := he
+      refine ⟨recs, rfl, he', rfl, fun hlen heq => ?_⟩
+      have := hlen.enc_len _ _ _ _ _ he'
+      simp only at heq
+      rw [heq] at this
+      simp [sealOverhead] at this
+
+/-- **Export of everything carries the whole folder, rotated keys included.** The records of an
+export without ids are, in `ReadDir` order, exactly the files of the key folder – the current files
+and every `<file>.old/<timestamp>` – each private one decrypted under the context derived from its
+name, each public one as it is. (The v1 format carries the history as ordinary files.) -/
+theorem v1_export_all_covers (e : Env) (S : ExportV1.Store) (recs : List Record)
+    (h : exportRecords e S [] .allKeys = some recs) :
+    recs.map (·.1) = (listing S.files).map (·.1) ∧
+    ∀ r ∈ recs, ∃ f ∈ listing S.files, r.1 = f.1 ∧
+      (isPrivate r.1 = true → keyDecrypt e.c S.master (ctxOfName f.1) f.2 = some r.2) ∧
+      (isPrivate r.1 = false → r.2 = f.2) := by
+  simp only [exportRecords, exportRecordsWith, ne_eq, not_true_eq_false, if_false, or_true, if_true] at h
+  constructor
+  · generalize listing S.files = l at h
+    induction l generalizing recs with
+    | nil => simp at h; subst h; rfl
+    | cons f fs ih =>
+      simp only [List.mapM_cons] at h
+      cases hf : readFileAsKey e ctxOfName S.master f with
+      | none => simp [hf] at h
+      | some r =>
+        cases hfs : fs.mapM (readFileAsKey e ctxOfName S.master) with
+        | none => simp [hf, hfs] at h
+        | some rs =>
+          simp [hf, hfs] at h
+          subst h
+          simp [ih rs hfs, (readFileAsKey_spec e ctxOfName S.master f r hf).1]
+  · intro r hr
+    obtain ⟨f, hfm, hfr⟩ := mapM_mem' _ _ _ h r hr
+    obtain ⟨h1, h2, h3⟩ := readFileAsKey_spec e ctxOfName S.master f r hfr
+    exact ⟨f, hfm, h1, h2, h3⟩
+
+/-- every secret an export emits can be sealed again: it is non-empty and below the 4 GiB limit
+(it came out of the AEAD), whether it was selected by id or found in the listing -/
+theorem v1_exported_secrets_sealable (e : Env) (hl : SealLaws e.c) (S : ExportV1.Store) (ids : List ExportID) (mode : Mode)
+    (recs : List Record) (h : exportRecords e S ids mode = some recs) :
+    ∀ r ∈ recs, isPrivate r.1 = true → Sealable r.2 :=
+  exportRecords_sealable e hl S ids mode recs h
+
+/-- **Export ∘ import = identity (v1).** For every source key store, every selection (ids of any
+kinds, or everything with the rotated keys) and every access key: if the export succeeds, then
+importing the bundle with the access key it came with into an *empty* key store with any non-empty
+master key succeeds, and afterwards the target holds exactly one file per exported record – under
+the record's name – which the target reads back (decrypting private files under the context derived
+from the name, with the *target's* master key) as exactly the exported value; nothing else exists in
+the target. Hypotheses on the record names are those of every name the key store itself creates:
+clean relative paths that `DescribeKeyFile` recognises, pairwise different. -/
+theorem v1_export_import_identity (e : Env) (hl : SealLaws e.c) (cd : ExportV1.Codec) (hcd : cd.Ok)
+    (ν : ExportV1.Nonces) (hν : ∀ a b, (ν a b).length = nonceLen)
+    (S : ExportV1.Store) (ids : List ExportID) (mode : Mode) (accessKey nonce : Bytes) (recs : List Record) (b : Bundle)
+    (hrecs : exportRecords e S ids mode = some recs)
+    (hb : ExportV1.exportBundle e cd S ids mode accessKey nonce = some b)
+    (tm : Bytes) (htm : tm ≠ [])
+    (hnames : ∀ r ∈ recs, targetPath r.1 = r.1 ∧ describeOk (base r.1) = true)
+    (hnd : (recs.map (·.1)).Nodup) :
+    ∃ fs, ExportV1.importBundle e cd ν ⟨tm, []⟩ b = (fs, true) ∧
+      (∀ r ∈ recs, ∃ stored, fs.get r.1 = some stored ∧ readBack e tm r.1 stored = some r.2) ∧
+      (∀ p, p ∉ recs.map (·.1) → fs.get p = none) := by
+  -- the bundle opens to the exported records
+  have hopen : openBundle e cd b = some recs := by
+    simp only [ExportV1.exportBundle, hrecs, Option.bind_some, sealRecords] at hb
+    cases he : keyEncrypt e.c accessKey emptyCtx (cd.ser recs) nonce with
+    | none => simp [he] at hb
+    | some d =>
+      simp only [he, Option.map_some, Option.some.injEq] at hb
+      subst hb
+      have hd : keyDecrypt e.c accessKey emptyCtx d = some (cd.ser recs) := hl.dec_enc _ _ _ _ _ he
+      simp [openBundle, hd, hcd.roundtrip]
+  have hseal := v1_exported_secrets_sealable e hl S ids mode recs hrecs
+  obtain ⟨fs, h1, h2, h3⟩ := importRecords_ok e hl ν hν tm htm recs []
+    (fun r hr => ⟨(hnames r hr).1, (hnames r hr).2, hseal r hr⟩) hnd
+  refine ⟨fs, by simp [ExportV1.importBundle, hopen, h1], h2, fun p hp => ?_⟩
+  rw [h3 p hp]; rfl
+
+/-- **Whatever `Import` accepts is a genuine bundle for these access keys.** If the first phase of
+the import (unseal, decode) succeeds, `Data` is an output of the AEAD under `Keys` for the
+serialisation it decoded: a modified bundle – any byte string that is not such an output – is never
+interpreted. -/
+theorem v1_import_genuine (e : Env) (hl : SealLaws e.c) (cd : ExportV1.Codec) (b : Bundle) (recs : List Record)
+    (h : openBundle e cd b = some recs) :
+    ∃ n pt, e.c.enc b.keys [] pt n = some b.data ∧ cd.deser pt = some recs := by
+  unfold openBundle at h
+  cases hd : keyDecrypt e.c b.keys emptyCtx b.data with
+  | none => simp [hd] at h
+  | some pt =>
+    simp only [hd, Option.bind_some] at h
+    obtain ⟨n, _, hn⟩ := hl.enc_of_dec _ _ _ _ hd
+    exact ⟨n, pt, hn, h⟩
+
+/-- **Wrong access key or modified bundle ⇒ error, target untouched (v1).** For an honest bundle:
+opening it with any other access key fails (key commitment), and any `Data` that is not an AEAD
+output under the right key fails (authenticity); in both cases `Import` returns an error before the
+first write – the target's files are exactly what they were. -/
+theorem v1_reject_unchanged (e : Env) (hl : SealLaws e.c) (hc : SealCommit e.c) (cd : ExportV1.Codec) (ν : ExportV1.Nonces)
+    (T : ExportV1.Store) (accessKey nonce : Bytes) (recs : List Record) (b : Bundle)
+    (hb : sealRecords e cd accessKey nonce recs = some b) :
+    (∀ k', k' ≠ b.keys → ExportV1.importBundle e cd ν T ⟨b.data, k'⟩ = (T.files, false)) ∧
+    (∀ d', (∀ m n, e.c.enc b.keys [] m n ≠ some d') → ExportV1.importBundle e cd ν T ⟨d', b.keys⟩ = (T.files, false)) := by
+  unfold sealRecords at hb
+  cases he : keyEncrypt e.c accessKey emptyCtx (cd.ser recs) nonce with
+  | none => simp [he] at hb
+  | some d =>
+    simp only [he, Option.map_some, Option.some.injEq] at hb
+    subst hb
+    constructor
+    · intro k' hk
+      have hd : keyDecrypt e.c k' emptyCtx d = none := by
+        cases hd : keyDecrypt e.c k' emptyCtx d with
+        | none => rfl
+        | some m =>
+          obtain ⟨n, _, hn⟩ := hl.enc_of_dec _ _ _ _ hd
+          exact absurd (hc.enc_inj _ _ _ _ _ _ _ _ _ hn he).1 hk
+      simp [ExportV1.importBundle, openBundle, hd]
+    · intro d' hno
+      have hd : keyDecrypt e.c accessKey emptyCtx d' = none := by
+        cases hd : keyDecrypt e.c accessKey emptyCtx d' with
+        | none => rfl
+        | some m =>
+          obtain ⟨n, _, hn⟩ := hl.enc_of_dec _ _ _ _ hd
+          exact absurd hn (hno m n)
+      simp [ExportV1.importBundle, openBundle, hd]
+
+/-- a failed first phase never touches the target, whatever the reason -/
+theorem v1_reject_before_write (e : Env) (cd : ExportV1.Codec) (ν : ExportV1.Nonces) (T : ExportV1.Store) (b : Bundle)
+    (h : openBundle e cd b = none) : ExportV1.importBundle e cd ν T b = (T.files, false) := by
+  simp [ExportV1.importBundle, h]
+
+/-- **The export contexts are the key store's own, for every valid client.** For a client id that
+`keystore.ValidateID` accepts – whatever it contains, also `_storage`, `_hmac`, `_sym` somewhere
+inside – `Export`/`Import` derive from the names of the client's storage private key, storage
+symmetric key and HMAC key files exactly the key context the key store seals them under
+(`V1WriteLog.Op.ctx`): the suffix is cut off the end, once. Together with
+`v1_export_import_identity` this makes the imported files readable by the target key store's own
+getters. -/
+theorem v1_export_context_client (id : Bytes) (hv : validateID id = true) :
+    ctxOfName (storageName id) = V1WriteLog.Op.ctx (.genDataKeys id [] []) ∧
+    ctxOfName (symName id) = V1WriteLog.Op.ctx (.genSymKey id []) ∧
+    ctxOfName (hmacName id) = V1WriteLog.Op.ctx (.genHmacKey id []) :=
+  ctxOfName_client id hv
+
+/-- **… and so are the contexts of the client's rotated keys.** A rotated key file
+`<file>.old/<timestamp>` of a valid client is opened (and re-sealed on import) under the very context
+of the current file – the client id – for every name `time.Parse` accepts as a timestamp: the key
+history of a client survives export ∘ import readable. -/
+theorem v1_export_context_rotated (id ts : Bytes) (hv : validateID id = true) (hts : isTimestamp ts = true) (hne : ts ≠ []) :
+    ctxOfName (histName (storageName id) ts) = V1WriteLog.Op.ctx (.genDataKeys id [] []) ∧
+    ctxOfName (histName (symName id) ts) = V1WriteLog.Op.ctx (.genSymKey id []) ∧
+    ctxOfName (histName (hmacName id) ts) = V1WriteLog.Op.ctx (.genHmacKey id []) :=
+  ctxOfName_client_hist id ts hv hts hne
+
+/-- **The export contexts are the key store's own (repairs 45).** For the poison symmetric key and
+for a rotated poison key pair the context `Export`/`Import` derive from the file name is the one the
+key store seals these keys with (`V1WriteLog.Op.ctx`) … -/
+theorem v1_export_context_poison :
+    keyContextBytes (ctxOfName poisonSym) = keyContextBytes (V1WriteLog.Op.ctx (.genPoisonSym [])) ∧
+    keyContextBytes (ctxOfName (histName poisonSym (Path.ofStr "2026-09-23T08:24:04.29"))) = keyContextBytes (V1WriteLog.Op.ctx (.genPoisonSym [])) ∧
+    keyContextBytes (ctxOfName (histName poisonKey (Path.ofStr "2026-09-23T08:24:04.293923735"))) = keyContextBytes (V1WriteLog.Op.ctx (.genPoisonPair [] [])) ∧
+    keyContextBytes (ctxOfName logKey) = keyContextBytes (V1WriteLog.Op.ctx (.genLogKey [])) := by
+  refine ⟨by decide, by decide, by decide, by decide⟩
+
+/-- … whereas **on the pinned tree they were not**: the poison symmetric key was opened under
+`.poison_key/poison_key` and a rotated poison private key under `poison_key` – `Export` of all keys
+failed for every key store holding one of them (witnesses replayed by the regression corpus). -/
+theorem v1_export_context_pinned_counterexample :
+    keyContextBytes (ctxOfNamePinned poisonSym) ≠ keyContextBytes (V1WriteLog.Op.ctx (.genPoisonSym [])) ∧
+    keyContextBytes (ctxOfNamePinned (histName poisonKey (Path.ofStr "2026-09-23T08:24:04.293923735"))) ≠
+      keyContextBytes (V1WriteLog.Op.ctx (.genPoisonPair [] [])) := by
+  refine ⟨by decide, by decide⟩
+
+/-! ## migration v1 → v2 -/
+
+/-- **Migration preserves values, and the newest key comes first.** `ImportKeyFileV1` of a key that
+the v1 store can read appends it to the v2 ring of its purpose and owner with the next sequence
+number and makes it current; the key data is exactly the v1 material (public key file as it is,
+private / symmetric key decrypted under the exported key's context); `AllKeys` of the ring lists the
+new key first followed by the former listing – so importing `k₁ … kₙ` into one ring yields
+`kₙ, …, k₁` with `kₙ` current (newest first); every other ring is untouched. -/
+theorem migration_preserves (e : Env) (src : ExportV1.Store) (s : V2) (k : ExportedKey) (isPair : Bool) (ring : Bytes)
+    (hring : ringOf k.ctx.purpose (keyContextBytes k.ctx) = some (isPair, ring))
+    (d : Export.KeyData)
+    (hd : if isPair then
+        ∃ pub priv, exportPublic src k = some pub ∧ exportPrivate e src k = some priv ∧ pub.getD [] ≠ [] ∧
+          d = ⟨Export.fmtPair, pub.getD [], priv.getD [], []⟩
+      else ∃ sym, exportSymmetric e src k = some (some sym) ∧ sym ≠ [] ∧ d = ⟨Export.fmtSym, [], [], sym⟩) :
+    ∃ s', importKeyFileV1 e src s k = (s', .ok) ∧
+      let old := (s.get ring).getD ⟨ring, [], -1⟩
+      (∃ r', s'.get ring = some r' ∧ r'.keys = old.keys ++ [⟨nextSeq old, d⟩] ∧ r'.current = nextSeq old ∧
+        allKeys r' = nextSeq old :: allKeys old) ∧
+      (∀ q, q ≠ ring → s'.get q = s.get q) := by
+  cases isPair with
+  | true =>
+    simp only [if_true] at hd
+    obtain ⟨pub, priv, hpub, hpriv, hne, rfl⟩ := hd
+    have hok : dataOk ⟨Export.fmtPair, pub.getD [], priv.getD [], []⟩ = true := by simp [dataOk, hne]
+    obtain ⟨s', h1, h2, h3⟩ := addCurrent_ok s ring _ hok
+    refine ⟨s', by simp [importKeyFileV1, hring, importPair, hpub, hpriv, h1], ⟨_, h2, rfl, rfl, ?_⟩, h3⟩
+    simp [allKeys]
+  | false =>
+    simp only [Bool.false_eq_true, if_false] at hd
+    obtain ⟨sym, hsym, hne, rfl⟩ := hd
+    have hok : dataOk ⟨Export.fmtSym, [], [], sym⟩ = true := by
+      simp [dataOk, hne, Export.fmtSym, Export.fmtPair]
+    obtain ⟨s', h1, h2, h3⟩ := addCurrent_ok s ring _ hok
+    refine ⟨s', by simp [importKeyFileV1, hring, importSym, hsym, h1], ⟨_, h2, rfl, rfl, ?_⟩, h3⟩
+    simp [allKeys]
+
+/-- the six purposes go to six different kinds of rings, per-client ones below `client/<id>/` -/
+theorem migration_ring_table (id : Bytes) :
+    ringOf pPoisonPair id = some (true, Path.ofStr "poison-record") ∧
+    ringOf pStoragePair id = some (true, clientRing id (Path.ofStr "storage")) ∧
+    ringOf pAuditLog id = some (false, Path.ofStr "audit-log") ∧
+    ringOf pSearchHMAC id = some (false, clientRing id (Path.ofStr "hmac-sym")) ∧
+    ringOf pPoisonSym id = some (false, Path.ofStr "poison-record-sym") ∧
+    ringOf pStorageSym id = some (false, clientRing id (Path.ofStr "storage-sym")) ∧
+    ringOf pUndefined id = none := by
+  refine ⟨by rfl, by rfl, by rfl, by rfl, by rfl, by rfl, by rfl⟩
+
+/-- **Rotated keys are not migrated (known finding `migrate-v1-rotated-keys`).** A history file of
+a client's symmetric key is classified as the *private storage key of a client named like the
+timestamp*; it is read under that context – not the owner's – so (with key commitment) the read
+fails and the migration reports an error for it. -/
+theorem migration_drops_history_counterexample :
+    let p := Path.ofStr "/client_a_storage_sym.old/2026-09-23T08:24:04.293923735"
+    (classify p).ctx = CrossClient.newClientIDKeyContext pStoragePair (Path.ofStr "2026-09-23T08:24:04.293923735") ∧
+    (classify p).privPath = p ∧ (classify p).symPath = [] := by
+  refine ⟨by decide, by decide, by decide⟩
+
+/-- **The fused id on the pinned tree collided (repair 49).** Storage key pair of client
+`_sym_keygamma` and storage symmetric key of client `gamma` had the same map key, now they differ. -/
+theorem migration_fused_id_pinned_counterexample :
+    let a := classify (Path.ofStr "/_sym_keygamma_storage")
+    let b := classify (Path.ofStr "/gamma_storage_sym")
+    fusedIDPinned a = fusedIDPinned b ∧ fusedID a ≠ fusedID b := by
+  refine ⟨by decide, by decide⟩
+
+end V1
+
 /-! ## non-vacuity: the hypotheses are jointly satisfiable (Box instance, a trivial codec) -/
+
+/-- non-vacuity (v1): a codec with the round-trip law exists, and a one-key store exports under the
+Box instance -/
+example : ExportV1.simpleCodec.Ok := ExportV1.simpleCodec_ok
+
+example :
+    let files : CrossClient.Files := match boxOps.enc [1] (Path.ofStr "client") [7] (List.replicate 12 0) with
+      | some ct => [(V1.symName (Path.ofStr "client"), ct)]
+      | none => []
+    ExportV1.exportRecords ⟨boxOps, fun _ => true⟩ ⟨[1], files⟩ [] .allKeys = some [(V1.symName (Path.ofStr "client"), [7])] := by
+  decide
+
+example : V1.validateID (Path.ofStr "db_storage_eu") = true := by decide
+
+example : V1.isTimestamp (Path.ofStr "2026-09-23T08:24:04.293923735") = true := by decide
 
 example : SealLaws boxOps ∧ SealCommit boxOps ∧ HashInj boxOps := ⟨Box.sealLaws, Box.sealCommit, Box.hashInj⟩
 
